@@ -80,6 +80,7 @@ type sSet struct {
 	// model: (unit, table, bench, point, exp) -> numerator values; (unit, table, bench, exp) -> denominator values
 	num map[string][]float64
 	den map[string][]float64
+	mixedNoDen bool
 	spell map[int]string // experiment index -> spelling used in the text
 	pspell map[int]string
 }
@@ -195,6 +196,10 @@ func sGenSet(T *sim.Tape, allowNoDen bool) *sSet {
 			}
 			if s.points[pts[0]].noDen {
 				continue
+			}
+			if allowNoDen && len(pts) == 1 && T.Intn(10, "exp-without-denominator") == 0 {
+				s.mixedNoDen = true
+				continue // this experiment measured no baseline for this benchmark, others at the same point may have
 			}
 			for l := 0; l < len(den[0]); l++ {
 				res := sResult{name: bench, cfg: s.cfgFor(e, pts[0], tab, "Base", T)}
@@ -376,7 +381,10 @@ func (s *sSet) modelDump(withTable bool, policy int) string {
 					if !hasDen {
 						dh = ""
 					}
-					hp[serS] = s.points[pi].numHash + "/" + dh
+					// the denominator hash of a series point is known as soon as one of its trials has a baseline
+					if prev, ok := hp[serS]; !ok || strings.HasSuffix(prev, "/") {
+						hp[serS] = s.points[pi].numHash + "/" + dh
+					}
 					key := [2]string{bench, serS}
 					c := cells[key]
 					date := s.exps[e].UTC().Format(RFC3339NanoNoZ)
@@ -725,7 +733,7 @@ var c18Engine = &sim.Engine{
 	Assumptions: []string{
 		"input invariants of real bent data (DESIGN.md A.4): series stamp <-> numerator hash one-to-one, denominator hash a function of the series stamp, distinct experiment instants, every stamp parses",
 		"under COMBINE every trial has a denominator (a point lacking one makes AllComparisonSeries dereference a nil cell whatever the order; recorded in DESIGN.md, not part of the property)",
-		"a missing denominator affects a whole series point (otherwise the recorded hash pair depends on which trial is visited first, which the property does not define)",
+		"the hash pair of a series point carries the denominator hash as soon as one of its trials has baseline measurements (REPLACE lanes mix experiments with and without a baseline)",
 		"confidence >= 0.5, resample counts >= 50, positive measurements; timestamps are the workload's own (the timestamp input space is not swept)",
 	},
 	Real: []string{"benchseries.Builder.Add/AddFiles/AllComparisonSeries/AddSummaries, NormalizeDateString", "benchfmt.Reader/Files", "benchproc projections"},
